@@ -731,6 +731,12 @@ impl CliOptions for GetOptsOptions {
         for (key, val) in self.inline_config {
             config.override_value(&key, &val);
         }
+
+        // `--check` is read-only: an inline `--config emit_mode=...` must not turn it into a
+        // mode that writes files.
+        if self.check {
+            config.set_cli().emit_mode(EmitMode::Diff);
+        }
     }
 
     fn config_path(&self) -> Option<&Path> {
